@@ -935,7 +935,7 @@ theorem tight_step {s : Sys} (h : Inv s) (hT : Tight s) (e : Ev) (hf : Frag s e)
       have : (step s (.ccAdd name spec)).1 = s := by simp [step, hg]
       rw [this]; exact hT
     | none =>
-      have : (step s (.ccAdd name spec)).1 = { s with api := { s.api with ccs := s.api.ccs ++ [⟨name, spec, [], false, 1, 1⟩] } } := by
+      have : (step s (.ccAdd name spec)).1 = { s with api := { s.api with ccs := s.api.ccs ++ [⟨name, spec, [], false, 1, freshRv s⟩] } } := by
         simp [step, hg]
       rw [this]; exact hT.congr rfl rfl rfl rfl
   | ccDel name =>
